@@ -9,12 +9,21 @@ env = dict(os.environ, CARGO_NET_OFFLINE="true")
 os.makedirs(check.BUILD, exist_ok=True)
 check.gen_all("NONE", "quick", 0)
 rc = 0
-for cfg in ("std",):
-    cmd = ["cargo", "kani", "--target-dir", os.path.join(check.BUILD, "kani-" + cfg)] + check.CFG_FLAGS[cfg] + ["--only-codegen", "-Z", "unstable-options", "-Z", "stubbing"]
-    p = subprocess.run(cmd, cwd=check.HARNESS, env=env, stdout=subprocess.PIPE, stderr=subprocess.STDOUT, text=True)
-    print("[setup] kani codegen %s rc=%d" % (cfg, p.returncode))
-    if p.returncode != 0:
-        print(p.stdout[-3000:]); rc = 1
+import concurrent.futures as cf
+jobs = []
+for cfg in ("std", "serde", "nostd"):
+    jobs.append((cfg, os.path.join(check.BUILD, "kani-" + cfg), check.CFG_FLAGS[cfg] + ["--only-codegen", "-Z", "unstable-options"]))
+for slot in range(16):
+    jobs.append(("std-stub-s%d" % slot, os.path.join(check.BUILD, "kani-std-stub-s%d" % slot), check.CFG_FLAGS_STUBS["std"] + ["--only-codegen", "-Z", "unstable-options", "-Z", "stubbing"]))
+def build(job):
+    name, tdir, flags = job
+    p = subprocess.run(["cargo", "kani", "--target-dir", tdir] + flags, cwd=check.HARNESS, env=env, stdout=subprocess.PIPE, stderr=subprocess.STDOUT, text=True)
+    return name, p.returncode, p.stdout[-2000:]
+with cf.ThreadPoolExecutor(max_workers=8) as ex:
+    for name, code, out in ex.map(build, jobs):
+        print("[setup] kani codegen %s rc=%d" % (name, code))
+        if code != 0:
+            print(out); rc = 1
 for cfg in ("std",):
     for prof in ("dev", "release"):
         check.native_bin(cfg, prof)
